@@ -621,3 +621,14 @@ Example C02_nonvacuous_agrees_implies_ok :
                      [mkFO (Some (mkF 8 0 0)) 0; mkFO None 10] (Some (mkF 8 0 0)) [] [] [] [] in
   forced_guard c = true /\ forced_guard_static c = true /\ agrees c = true /\ C02_ok c = true.
 Proof. vm_compute. repeat split; reflexivity. Qed.
+
+(* ... and the guard cannot simply be dropped: a Set whose reset mask names an unknown field is answered Internal (13)
+   by validation, in the model as in the code (agrees = true); the checker does not count 13 among the codes a Set can
+   return (allowed_code) and rejects the history -- the unguarded implication is REFUTED *)
+Definition bad_reset_wo := mkFWO None None (Some [Fbad]) None false None false None false None None false false false false.
+Theorem C02_agrees_implies_ok_unguarded_refuted :
+  let c := CaseSched None (Some (mkF 5 0 0)) [] [FSet (mkF 6 0 0) bad_reset_wo; FSet (mkF 7 0 0) plain_wo] [0; 1; 1; 1]%nat
+                     [mkFO None 13; mkFO (Some (mkF 7 0 0)) 0] (Some (mkF 7 0 0)) [] [] [] [] in
+  agrees c = true /\ C02_ok c = false /\ forced_guard c = false.
+Proof. vm_compute. repeat split; reflexivity. Qed.
+Print Assumptions C02_agrees_implies_ok_unguarded_refuted.
